@@ -9,16 +9,20 @@
 (* Steps the code does not log (the no-op branches of the stats loop) are        *)
 (* silent steps enabled exactly when the model says they are no-ops.             *)
 (* The file holds many runs (JSON object per line); runs are validated one       *)
-(* after the other.                                                              *)
+(* after the other.  A run with seq > 1 was made with the SAME Method value as   *)
+(* the run before it (obj names the value): the step to it is the model's ReInit *)
+(* (FreshRun, run + 1) - whatever the method kept from the earlier run, the new  *)
+(* run has to be explained from the state of Init and its Result has to be       *)
+(* coherent on its own.                                                          *)
 EXTENDS Minimize, Json, TLCExt
 
 TraceLog == ndJsonDeserialize("trace.ndjson")
 
 VARIABLES r,      \* index of the run being validated
           cur,    \* cur[a]: next unread event of actor a
-          fl, il  \* limits of the current run
+          fl, gl, hl, il  \* limits of the current run (Func / Grad / Hess evaluations, major iterations)
 
-tvars == <<vars, r, cur, fl, il>>
+tvars == <<vars, r, cur, fl, gl, hl, il>>
 
 Run == TraceLog[r]
 Actors == DOMAIN Run.logs
@@ -27,8 +31,8 @@ Has(a) == cur[a] <= Len(Run.logs[a])
 Ev(a) == Run.logs[a][cur[a]]
 Adv1(a) == cur' = [cur EXCEPT ![a] = @ + 1]
 Adv2(a, b) == cur' = [cur EXCEPT ![a] = @ + 1, ![b] = @ + 1]
-Same == UNCHANGED <<r, fl, il>>
-Task(e) == [id |-> e.tok, op |-> e.op, f |-> e.f]
+Same == UNCHANGED <<r, fl, gl, hl, il>>
+Task(e) == [id |-> e.tok, op |-> e.op, f |-> e.f, g |-> e.g, h |-> e.h]
 AllCauses == {"converge", "recerr", "mdone", "probstatus"}
 
 (* ---- the Method, as observed by the recording proxy (no bound on sends, no assumption   *)
@@ -40,7 +44,7 @@ TMSend ==
     /\ mstate' = IF Ev("MO").op = "mdone" /\ mstate = "run" THEN "sentdone" ELSE mstate
     /\ msends' = msends + 1 /\ mheld' = mheld \ {Ev("MO").tok}
     /\ UNCHANGED <<opsClosed, res, resClosed, doneClosed, wcClosed, scClosed, dist, work, stat,
-                   statsF, callsF, iters, posts, final>>
+                   stats3, calls3, iters, posts, final, run>>
     /\ Adv1("MO") /\ Same
 TMClose == /\ Has("MO") /\ Ev("MO").e = "MClose" /\ MClose /\ Adv1("MO") /\ Same
 TMRecv ==
@@ -87,54 +91,48 @@ TWSendDone(w) ==
 \* the code logs SProc (status and counters) after the switch, except for signalDone
 TSProc ==
     /\ Has("S") /\ Ev("S").e = "SProc" /\ spc = "proc" /\ stask.op # "sigdone"
-    /\ SProcL(fl, il, AllCauses)
+    /\ SProcL(fl, gl, hl, il, AllCauses)
     /\ sstatus' = Ev("S").status /\ statsF' = Ev("S").nf /\ iters' = Ev("S").ni
     /\ Adv1("S") /\ Same
-SilentSigProc == /\ spc = "proc" /\ stask.op = "sigdone" /\ SProcL(fl, il, AllCauses)
-                 /\ UNCHANGED <<r, cur, fl, il>>
+SilentSigProc == /\ spc = "proc" /\ stask.op = "sigdone" /\ SProcL(fl, gl, hl, il, AllCauses)
+                 /\ UNCHANGED <<r, cur, fl, gl, hl, il>>
 TSCloseResults == /\ Has("S") /\ Ev("S").e = "SCloseResults" /\ resClosed /\ spc = "recv"
                   /\ UNCHANGED vars /\ Adv1("S") /\ Same
 TSPost == /\ Has("S") /\ Ev("S").e = "SPost" /\ spc = "post" /\ sstatus # "none" /\ ~doneClosed
           /\ SPost /\ Adv1("S") /\ Same
 SilentSPost == /\ spc = "post" /\ (sstatus = "none" \/ doneClosed) /\ SPost
-               /\ UNCHANGED <<r, cur, fl, il>>
+               /\ UNCHANGED <<r, cur, fl, gl, hl, il>>
 TSBack == /\ Has("S") /\ Ev("S").e = "SBack" /\ spc = "back" /\ workersDone # NT /\ stask.op # "mdone"
           /\ Task(Ev("S")) = stask
           /\ SBack /\ Adv1("S") /\ Same
 SilentSBack == /\ spc = "back" /\ ~(workersDone # NT /\ stask.op # "mdone") /\ SBack
-               /\ UNCHANGED <<r, cur, fl, il>>
+               /\ UNCHANGED <<r, cur, fl, gl, hl, il>>
 TSExit == /\ Has("S") /\ Ev("S").e = "SExit" /\ statsF = Ev("S").nf /\ iters = Ev("S").ni
           /\ SExit /\ Adv1("S") /\ Same
 
 (* ------------------------------- run boundaries ----------------------------------- *)
 RunInit(k) ==
-    /\ ops = <<>> /\ opsClosed = FALSE /\ res = <<>> /\ resClosed = FALSE
-    /\ doneClosed = FALSE /\ wcClosed = FALSE /\ scClosed = FALSE
-    /\ mheld = {} /\ mstate = "run" /\ msends = 0
-    /\ dpc = "select" /\ dtask = None
-    /\ wpc = [w \in Wk |-> "recv"] /\ wtask = [w \in Wk |-> None]
-    /\ spc = "recv" /\ stask = None /\ sstatus = "none" /\ workersDone = 0
-    /\ statsF = 0 /\ callsF = 0 /\ iters = 0 /\ posts = 0 /\ final = "none" /\ err = "none"
+    /\ Init
     /\ r = k /\ cur = [a \in DOMAIN TraceLog[k].logs |-> 1]
-    /\ fl = TraceLog[k].fl /\ il = TraceLog[k].il
-\* the same assignment to the primed variables (k is a value, not a state expression)
+    /\ fl = TraceLog[k].fl /\ gl = TraceLog[k].gl /\ hl = TraceLog[k].hl /\ il = TraceLog[k].il
+\* the next run of the file: the model's FreshRun; with the same Method value (seq > 1) it is the
+\* model's ReInit step, with a new one the run counter starts again
 RunInitNext(k) ==
-    /\ ops' = <<>> /\ opsClosed' = FALSE /\ res' = <<>> /\ resClosed' = FALSE
-    /\ doneClosed' = FALSE /\ wcClosed' = FALSE /\ scClosed' = FALSE
-    /\ mheld' = {} /\ mstate' = "run" /\ msends' = 0
-    /\ dpc' = "select" /\ dtask' = None
-    /\ wpc' = [w \in Wk |-> "recv"] /\ wtask' = [w \in Wk |-> None]
-    /\ spc' = "recv" /\ stask' = None /\ sstatus' = "none" /\ workersDone' = 0
-    /\ statsF' = 0 /\ callsF' = 0 /\ iters' = 0 /\ posts' = 0 /\ final' = "none" /\ err' = "none"
+    /\ FreshRun
+    /\ run' = IF TraceLog[k].seq > 1 THEN run + 1 ELSE 1
+    /\ (TraceLog[k].seq > 1 => TraceLog[k].obj = Run.obj)
     /\ r' = k /\ cur' = [a \in DOMAIN TraceLog[k].logs |-> 1]
-    /\ fl' = TraceLog[k].fl /\ il' = TraceLog[k].il
+    /\ fl' = TraceLog[k].fl /\ gl' = TraceLog[k].gl /\ hl' = TraceLog[k].hl /\ il' = TraceLog[k].il
 
 RunConsumed == \A a \in Actors : ~Has(a)
 \* what the public API reported for this run must agree with the model's final state
 ResultOK ==
     /\ AllDone
+    /\ Run.seq = run                             \* the k-th run made with this Method value
     /\ Run.result.nf = statsF /\ Run.result.ni = iters
+    /\ Run.result.ng = statsG /\ Run.result.nh = statsH
     /\ Run.result.calls = callsF                 \* callbacks actually made (counted by the harness)
+    /\ Run.result.calls_g = callsG /\ Run.result.calls_h = callsH
     /\ Run.result.status = final \/ (final = "mconv" /\ Run.result.status # "none")
     /\ Run.result.goroutines = 0                 \* no goroutine left behind
     \* C19 coherence of the reported location (predicates evaluated at the logging boundary from
@@ -144,12 +142,16 @@ ResultOK ==
     /\ Run.result.ni > 0 => (Run.result.fx_ok = 1 /\ Run.result.x_eval = 1)
     /\ (Run.result.local = 1 /\ Run.result.ni > 0) => Run.result.noworse = 1
     /\ (Run.result.local = 1 /\ Run.result.calls > 0) => Run.result.ni > 0
+    \* Location: "Gradient holds the first-order partial derivatives of the function at X": a reported
+    \* gradient is the one the objective returned at the reported X in THIS run (the harness's objective
+    \* wrapper remembers the gradient it returned for each evaluated X)
+    /\ (Run.result.ni > 0 /\ Run.result.has_grad = 1) => Run.result.grad_ok = 1
 
 NextRun ==
     /\ r <= Len(TraceLog) /\ RunConsumed /\ ResultOK
     /\ IF r < Len(TraceLog)
        THEN LET k == r + 1 IN RunInitNext(k)
-       ELSE /\ r' = r + 1 /\ UNCHANGED <<vars, cur, fl, il>>
+       ELSE /\ r' = r + 1 /\ UNCHANGED <<vars, cur, fl, gl, hl, il>>
             /\ PrintT("TRACE-ACCEPTED " \o ToString(Len(TraceLog)))
 
 TraceInit == RunInit(1) /\ TLCSet(1, 0) /\ TLCSet(2, 0) /\ TLCSet(3, <<>>)
@@ -164,8 +166,11 @@ TraceNext ==
 TraceSpec == TraceInit /\ [][TraceNext]_tvars
 
 \* model invariants evaluated at every step of the real executions
-TraceInv == NoError /\ CloseOrder /\ (posts <= 1) /\ (statsF <= callsF) /\ NoLateEval
+TraceInv == NoError /\ CloseOrder /\ (posts <= 1) /\ NoLateEval
+            /\ (statsF <= callsF) /\ (statsG <= callsG) /\ (statsH <= callsH)
             /\ (fl > 0 => statsF <= fl + NT - 1)
+            /\ (gl > 0 => statsG <= gl + NT - 1)
+            /\ (hl > 0 => statsH <= hl + NT - 1)
 
 \* progress register for diagnosing a rejection: highest (run, consumed events) reached
 RECURSIVE SumCur(_)
@@ -179,7 +184,8 @@ Progress == IF TLCGet(2) = 1 THEN FALSE
                     THEN TLCSet(1, n) /\ TLCSet(3, [cur |-> cur, spc |-> spc, stask |-> stask, sstatus |-> sstatus,
                                                      dpc |-> dpc, dtask |-> dtask, wpc |-> wpc, mstate |-> mstate,
                                                      ops |-> ops, res |-> res, flags |-> <<opsClosed, resClosed, doneClosed, wcClosed, scClosed>>,
-                                                     cnt |-> <<statsF, callsF, iters, workersDone>>])
+                                                     cnt |-> <<statsF, callsF, statsG, statsH, iters, workersDone, run>>,
+                                                     name |-> Run.name, result |-> Run.result])
                     ELSE TRUE
             ELSE TLCSet(2, 1)
 Accepted == IF TLCGet(2) = 1 THEN TRUE
